@@ -277,7 +277,7 @@ Proof.
       rewrite E. exists b. eexists. split; [reflexivity|lia]. }
   destruct Hhead as [b [t [E Hb]]].
   unfold parse_array. replace (91 =? 91) with true by reflexivity.
-  assert (Hfuel : (length l <= length (91 :: join_comma (map encode_string l) ++ 93 :: rest))%nat)
+  assert (Hfuel : (length l <= length (91%N :: join_comma (map encode_string l) ++ 93%N :: rest))%nat)
     by (simpl; rewrite app_length; lia).
   revert Hfuel. generalize (length (91 :: join_comma (map encode_string l) ++ 93 :: rest)). intros fuel Hfuel.
   pose proof (parse_array_items_ok l Hl Hne fuel rest Hfuel) as Hp.
